@@ -8,7 +8,6 @@ use lsp_types::{
 use notify::{Config, RecommendedWatcher, RecursiveMode, Watcher};
 use std::{
     path::{Path, PathBuf},
-    sync::mpsc::channel,
     time::Duration,
 };
 
@@ -165,7 +164,11 @@ async fn register_files_watch_use_fsnotify(
     watch_roots: Vec<PathBuf>,
     match_file_pattern: WorkspaceFileMatcher,
 ) -> bool {
-    let (tx, rx) = channel();
+    // An async channel: the receiving task below must not block its runtime worker thread. A
+    // blocking `std::sync::mpsc` receive parked the worker between file events together with any
+    // task sitting in that worker's (non-stealable) LIFO slot, e.g. a request handler that had
+    // just been granted a lock released by the watched-files handler, which then never ran.
+    let (tx, mut rx) = tokio::sync::mpsc::unbounded_channel();
     let config = Config::default().with_poll_interval(Duration::from_secs(5));
     let mut watcher = match RecommendedWatcher::new(
         move |res| {
@@ -206,8 +209,8 @@ async fn register_files_watch_use_fsnotify(
 
     tokio::spawn(async move {
         loop {
-            match rx.recv() {
-                Ok(event) => {
+            match rx.recv().await {
+                Some(event) => {
                     let typ = match event.kind {
                         notify::event::EventKind::Create(_) => lsp_types::FileChangeType::CREATED,
                         notify::event::EventKind::Modify(_) => lsp_types::FileChangeType::CHANGED,
@@ -233,8 +236,8 @@ async fn register_files_watch_use_fsnotify(
                     };
                     on_did_change_watched_files(context.clone(), params).await;
                 }
-                Err(e) => {
-                    warn!("watch files notify error: {:?}", e);
+                None => {
+                    warn!("watch files notify channel closed");
                     break;
                 }
             }
